@@ -127,6 +127,40 @@ def _shadowed_default(repo, ci, node, name) -> bool:
     return False
 
 
+def _adopting_setstate(repo, ci, fi) -> bool:
+    """`__setstate__(self, state)` that is the default: `self.__dict__.update(state)` once, unconditionally (argument
+    validation and logging apart), and no other write - except clips at the float limit (`if x > FLOAT_MAX: x = FLOAT_MAX`),
+    which leave every finite value as it is."""
+    from ..ir import Walker, is_log_call, root_object
+    from ..rules_premise import without_validation
+    w = without_validation(Walker(repo, fi, self_class=ci.name, inline=lambda f: f.cls == ci.name and f.name.startswith("_")
+                                  and not f.name.startswith("__")))
+    if len(fi.params) != 2:
+        return False
+    state = ("param", fi.params[1])
+    adopt = [e for e in w.events if e.kind == "call" and e.name == "update"
+             and e.target == ("attr", ("attr", ("self",), "__dict__"), "update")]
+    if len(adopt) != 1 or adopt[0].args != (state,) or adopt[0].kwargs or adopt[0].guards or adopt[0].loops:
+        return False
+    FM = ("K", "FLOAT_MAX")
+    for e in w.events:
+        if e.kind == "store":
+            clip = e.value == FM and not e.aug and (("cmp", "<", FM, e.target), True) in e.guards
+            if not clip:
+                return False
+        elif e.kind == "call" and e is not adopt[0] and not is_log_call(e):
+            recv = e.target[1] if e.target is not None and e.target[0] == "attr" else None
+            if recv is not None and root_object(recv) in (("self",), state) and (e.name in CONTAINER_WRITERS or e.name == "update"):
+                return False
+        elif e.kind in ("opaque",):
+            return False
+    return True
+
+
+CONTAINER_WRITERS = {"append", "insert", "extend", "pop", "remove", "clear", "sort", "reverse", "fill", "put", "resize",
+                     "setdefault", "popitem", "__setitem__", "__delitem__"}
+
+
 def check_state(rep, repo):
     n = 0
     for cname in CLASSES:
@@ -150,7 +184,9 @@ def check_state(rep, repo):
         allf = list(ci.methods.values()) + list(ci.getters.values()) + list(ci.setters.values())
         for fi in allf:
             n += 1
-            if fi.name in FORBIDDEN:
+            if fi.name == "__setstate__" and _adopting_setstate(repo, ci, fi):
+                rep.fn("STATE-filter", fi, f"{cname}.__setstate__ adopts the pickled dictionary as it is", True)
+            elif fi.name in FORBIDDEN:
                 rep.fn("STATE-filter", fi, f"{cname} defines {fi.name}", False,
                        f"{fi.name} changes what pickle stores / restores")
             for node in ast.walk(fi.node):
